@@ -57,7 +57,40 @@ def expr(r, depth, names, counter):
     return "[%s, %s].length" % (expr(r, depth - 1, names, counter), lit(r))
 
 
+def value_wrapper(r, x):
+    """an expression whose *value* is that of `x` but which is not a reference to it: foldable wrappers around
+    an identifier or member expression (a folding pass may replace them by `x` only where a reference and a value
+    cannot be told apart)"""
+    w = r.choice(["(%s, X)" % lit(r), "(%s, %s, X)" % (lit(r), lit(r)), "(true && X)", "(1 && X)", "('a' && X)", "(false || X)", "(0 || X)", "('' || X)",
+                  "(null ?? X)", "(undefined ?? X)", "(1 ? X : 0)", "(0 ? 0 : X)", "(true ? X : null)", "(void 0, X)"])
+    return w.replace("X", x)
+
+
+def reference_stmt(r, counter):
+    """contexts that distinguish a reference from its value: typeof of an unresolvable name, the `this` of a call,
+    delete, direct eval"""
+    counter[0] += 1
+    n = counter[0]
+    k = r.below(6)
+    if k == 0:
+        return "try { print('typeof-ref', typeof %s); } catch (e) { print('typeof-ref threw', e); }" % value_wrapper(r, "undeclaredRef%d" % n)
+    if k == 1:
+        return ("var refo%d = {who: 'object', m() { return this === refo%d ? 'this=object' : this === undefined ? 'this=undefined' : 'this=other'; }};\n"
+                "print('call-ref', %s());") % (n, n, value_wrapper(r, "refo%d.m" % n))
+    if k == 2:
+        return "globalThis.delref%d = 1; print('delete-ref', delete %s, typeof delref%d);" % (n, value_wrapper(r, "delref%d" % n), n)
+    if k == 3:
+        return ("function evref%d() { var loc%d = 'local'; return %s('typeof loc%d'); }\nprint('eval-ref', evref%d());") % (n, n, value_wrapper(r, "eval"), n, n)
+    if k == 4:
+        return ("var refw%d = {f() { return this === refw%d ? 'this=with-object' : 'this=not-with-object'; }};\n"
+                "try { print('with-ref', Function('o', 'with (o) { return %s(); }')(refw%d)); } catch (e) { print('with-ref threw', e); }") % (
+                    n, n, value_wrapper(r, "f").replace("'", "\\'"), n)
+    return "var refd%d = {p: 1}; print('delete-member-ref', delete %s, 'p' in refd%d);" % (n, value_wrapper(r, "refd%d.p" % n), n)
+
+
 def stmt(r, names, counter, depth=2):
+    if r.chance(0.12):
+        return reference_stmt(r, counter)
     k = r.below(14)
     e = lambda d=3: expr(r, d, names, counter)
     if k == 0:
